@@ -2,9 +2,9 @@
 # usage: tools/process_round2.sh confirm <property>   -> confirms the round-2 changes A,B of the sub-agent in its scratch worktree
 #                                                        /tmp/wt2_<property>, installs them as seeded/<property>-C and -D, removes the worktree
 #        tools/process_round2.sh try <property>       -> runs the property's quick check against seeded/<property>-C and -D
-MODE=$1; P=$2; WT=/tmp/wt2_$P
+MODE=$1; P=$2; WT=${WTPFX:-/tmp/wt2_}$P; L1=${LET1:-C}; L2=${LET2:-D}
 cd /verif
-for pair in A:C B:D; do
+for pair in A:$L1 B:$L2; do
   X=${pair%:*}; Y=${pair#*:}
   if [ "$MODE" = confirm ]; then
     [ -f $WT/MUTANTS/$X/patch.diff ] || { echo "$P-$Y: no change $X delivered"; continue; }
@@ -14,7 +14,7 @@ for pair in A:C B:D; do
     for f in demo_common.hpp build_common.sh build_noguard.sh; do [ -f $WT/MUTANTS/$X/$f ] && cp $WT/MUTANTS/$X/$f seeded/$P-$Y/; done
     python3 - "$P-$Y" <<'PY'
 import json,sys
-p='/verif/seeded/%s/meta.json'%sys.argv[1]; m=json.load(open(p)); m['source']="round 2: independent sub-agent given only the property text, the one-line titles of the earlier seeded changes to avoid, and a scratch worktree of /repo HEAD at the time"; json.dump(m,open(p,'w'),indent=1)
+p='/verif/seeded/%s/meta.json'%sys.argv[1]; m=json.load(open(p)); m['source']="later round: independent sub-agent given only the property text, the one-line titles of the earlier seeded changes to avoid, and a scratch worktree of /repo HEAD at the time"; json.dump(m,open(p,'w'),indent=1)
 PY
   else
     [ -f seeded/$P-$Y/patch.diff ] || continue
